@@ -173,8 +173,11 @@ fn proto_leaf(r: &Rec, lex: &mut Lex) -> XN {
             if let Some(m) = max {
                 attrs.push(("maximum".into(), fmt_f32(m.0, lex)));
             }
-            text = match min {
-                Some(m) if m.0 != 0.0 && lex.flag(2) => fmt_f32(m.0, lex),
+            // the element's own value must lie within its bounds: empty (= 0) only if 0 does
+            let zero_ok = min.map(|m| m.0 <= 0.0).unwrap_or(true) && max.map(|m| m.0 >= 0.0).unwrap_or(true);
+            text = match (min, max) {
+                (Some(m), _) if !m.0.is_nan() && (!zero_ok || lex.flag(2)) => fmt_f32(m.0, lex),
+                (None, Some(m)) if !zero_ok => fmt_f32(m.0, lex),
                 _ => String::new(),
             };
         }
@@ -189,8 +192,10 @@ fn proto_leaf(r: &Rec, lex: &mut Lex) -> XN {
             if let Some(m) = max {
                 attrs.push(("maximum".into(), fmt_f64(m.0, lex)));
             }
-            text = match min {
-                Some(m) if m.0 != 0.0 && lex.flag(2) => fmt_f64(m.0, lex),
+            let zero_ok = min.map(|m| m.0 <= 0.0).unwrap_or(true) && max.map(|m| m.0 >= 0.0).unwrap_or(true);
+            text = match (min, max) {
+                (Some(m), _) if !m.0.is_nan() && (!zero_ok || lex.flag(2)) => fmt_f64(m.0, lex),
+                (None, Some(m)) if !zero_ok => fmt_f64(m.0, lex),
                 _ => String::new(),
             };
         }
@@ -524,7 +529,16 @@ impl<'a, 'b> W<'a, 'b> {
             let q = if self.lex.flag(3) { '\'' } else { '"' };
             let sp = ["", " ", "\n"][if self.lex.flag(6) { 1 + self.lex.pick(2) } else { 0 }];
             let lead = if self.lex.flag(8) { "\n  " } else { " " };
-            self.out.push_str(&format!("{lead}{n}{sp}={sp}{q}{}{q}", esc_attr(v, q)));
+            let mut val = esc_attr(v, q);
+            if self.lex.flag(13) {
+                // first character as a character reference
+                if let Some(c) = v.chars().next() {
+                    if c != '&' && c != '<' && c != '"' && c != '\'' && !c.is_whitespace() {
+                        val = format!("&#x{:X};{}", c as u32, esc_attr(&v[c.len_utf8()..], q));
+                    }
+                }
+            }
+            self.out.push_str(&format!("{lead}{n}{sp}={sp}{q}{val}{q}"));
         }
     }
     fn misc(&mut self) {
@@ -628,7 +642,16 @@ impl<'a, 'b> W<'a, 'b> {
                     return;
                 }
                 self.close_start(false);
-                self.out.push_str(text);
+                // numbers are character data: a CDATA section or character references are legal spellings
+                match if self.lex.flag(9) { 1 + self.lex.pick(2) } else { 0 } {
+                    1 => self.out.push_str(&cdata(text)),
+                    2 => {
+                        for c in text.chars() {
+                            self.out.push_str(&format!("&#{};", c as u32));
+                        }
+                    }
+                    _ => self.out.push_str(text),
+                }
                 self.end(&q);
             }
             XN::Leaf { name, prefix, attrs, text } => {
